@@ -13,6 +13,7 @@ import Mathlib.Analysis.InnerProductSpace.GramMatrix
 import Mathlib.Analysis.SpecialFunctions.Exponential
 import Mathlib.Analysis.SpecialFunctions.Trigonometric.Basic
 import Mathlib.Topology.Algebra.Order.LiminfLimsup
+import Mathlib.MeasureTheory.Integral.Bochner.Basic
 
 namespace GSV.Lemmas.Psd
 open Matrix
@@ -190,6 +191,33 @@ theorem IsPSDKernel.delta [DecidableEq X] : IsPSDKernel fun a b : X => if a = b 
     · intro hni; exact absurd (Finset.mem_image_of_mem x (Finset.mem_univ i)) hni
   rw [this]
   exact posSemidef_sum _ fun e _ => posSemidef_vecMulVec_self_star _
+
+/-- cosine of a difference of "phases": `cos (ω a − ω b) = cos ω a · cos ω b + sin ω a · sin ω b` -/
+theorem IsPSDKernel.cos_sub (ω : X → ℝ) : IsPSDKernel fun a b => Real.cos (ω a - ω b) := by
+  have := (IsPSDKernel.of_feature fun a => Real.cos (ω a)).add (IsPSDKernel.of_feature fun a => Real.sin (ω a))
+  convert this using 3 with a b
+  exact Real.cos_sub _ _
+
+open MeasureTheory in
+/-- **Mixtures**: an integral of PSD kernels against a (positive) measure is PSD. -/
+theorem IsPSDKernel.integral {T : Type*} [MeasurableSpace T] (μ : Measure T) {F : T → X → X → ℝ}
+    (hF : ∀ᵐ t ∂μ, IsPSDKernel (F t)) (hint : ∀ a b, Integrable (fun t => F t a b) μ) :
+    IsPSDKernel fun a b => ∫ t, F t a b ∂μ := by
+  rw [isPSDKernel_iff]
+  refine ⟨fun a b => ?_, fun n x c => ?_⟩
+  · refine integral_congr_ae ?_
+    filter_upwards [hF] with t ht using ht.symm a b
+  · have e : ∑ i, ∑ j, c i * (∫ t, F t (x i) (x j) ∂μ) * c j
+        = ∫ t, ∑ i, ∑ j, c i * F t (x i) (x j) * c j ∂μ := by
+      rw [integral_finsetSum _ fun i _ => integrable_finsetSum _ fun j _ =>
+        ((hint (x i) (x j)).const_mul (c i)).mul_const (c j)]
+      refine Finset.sum_congr rfl fun i _ => ?_
+      rw [integral_finsetSum _ fun j _ => ((hint (x i) (x j)).const_mul (c i)).mul_const (c j)]
+      refine Finset.sum_congr rfl fun j _ => ?_
+      rw [integral_mul_const, integral_const_mul]
+    rw [e]
+    refine integral_nonneg_of_ae ?_
+    filter_upwards [hF] with t ht using ht.quad_nonneg x c
 
 end kernel
 
